@@ -38,5 +38,10 @@ META.update({
  "C07": {"text": "For generated workloads x option settings, every position k in the measured sequence of OS calls of each kind (map, unmap, commit, protect, purge-advise) x {fail once, fail persistently} is executed in a fresh process through the OS shim (a refused commit really leaves PROT_NONE). Oracle: no crash, NULL or valid block, live blocks intact, a full recovery workload after the fault is lifted, and everything given back after free-all. Fault enumeration is the right level: the quantifier is over fault positions, which are enumerated densely (strided beyond 40/200 per kind). Found and now guards three repaired defects (F9 F10 F11).",
          "design_ref": "DESIGN.md §5 C07, §6 F9-F11", "note": NOTE_HIST + " Faults are injected at the libc boundary used by src/prim/unix/prim.c; only release and secure builds (the debug build asserts that decommit cannot fail).", "technique": "fault injection enumerated over OS-call positions (property-based workloads, interposed OS layer), model-based oracle"},
 })
+
+META.update({
+ "C15": {"text": "Generated arena shapes (reserved or caller-managed with misalignment and odd sizes, exclusive or not) x histories over bound and unbound heaps, helper threads with bound heaps that exit, capacity probes and fill-until-NULL; address-range oracle (inside the bound arena, never inside a foreign exclusive arena, also after adoption), NULL when full, exact capacity of an empty exclusive arena, OS-shim policing of the caller's mapping outside the managed part. Found and now guards the repaired adoption defect (F13).",
+         "design_ref": "DESIGN.md §5 C15, §6 F13", "note": NOTE_HIST, "technique": "property-based testing: generated arena configurations x histories, address-range oracle + interposed OS layer"},
+})
 ALL = ["C%02d" % i for i in range(1, 21)]
 NOT_APPLICABLE = [{"property_id": p, "reason": "check not built yet in this revision (planned, see DESIGN.md §10); not claimed"} for p in ALL if p not in CHECKS]
